@@ -1,5 +1,5 @@
 (* Property C03 -- statements only; every proof is `exact <lemma from Proofs/>`. *)
-From Erbium Require Import Lib.Base Model.DnsName Model.DnsCodec Model.DnsForward Proofs.DnsForward.
+From Erbium Require Import Lib.Base Model.DnsName Model.DnsCodec Model.DnsStrict Model.DnsForward Proofs.DnsForward Proofs.DnsForwardWire.
 
 (* The reply assembled for query q from the upstream reply up (after it spent
    [age] seconds in the cache): the client's id and question, marked as a
@@ -36,3 +36,25 @@ Print Assumptions C03_outquery_question.
 (* the hypothesis is satisfiable: age 0 always is *)
 Example C03_age_zero_ok : forall up, 0 <= min_ttl up.
 Proof. intros. apply N.le_0_l. Qed.
+
+(* On the wire: the reply assembled for a well-formed query q from a well-formed
+   upstream reply up (any option list eo that add_edns produced), serialised under
+   any limit without dropping a record, is accepted by the strict decoder of the
+   specification side, and what it reads is the client's id and question, QR set,
+   the upstream's (12-bit) rcode and exactly the upstream's answer, authority and
+   additional sections.  (When the limit forces records out, C04_sized_wellformed
+   says which: whole records from the end, TC set.)  Composes C14 and C04. *)
+Theorem C03_on_the_wire : forall q up eo size e,
+  wf_pkt q = true -> wf_pkt up = true -> wf_opts eo = true -> lenN (additional up) < 65535 ->
+  encode_sized_t (in_reply q up eo) size = Ok (e, false) ->
+  exists r, strict_decode e = Some r /\
+    qid r = qid q /\ qname r = qname q /\ qtype r = qtype q /\ qclass r = qclass q /\ qr r = true /\
+    rcode r = rcode up /\ answer r = answer up /\ nameserver r = nameserver up /\ additional r = additional up.
+Proof. exact reply_on_the_wire. Qed.
+Check C03_on_the_wire : forall q up eo size e,
+  wf_pkt q = true -> wf_pkt up = true -> wf_opts eo = true -> lenN (additional up) < 65535 ->
+  encode_sized_t (in_reply q up eo) size = Ok (e, false) ->
+  exists r, strict_decode e = Some r /\
+    qid r = qid q /\ qname r = qname q /\ qtype r = qtype q /\ qclass r = qclass q /\ qr r = true /\
+    rcode r = rcode up /\ answer r = answer up /\ nameserver r = nameserver up /\ additional r = additional up.
+Print Assumptions C03_on_the_wire.
